@@ -11,8 +11,9 @@ INVS = ["Truthful", "NoInjectedAckLeaks", "InjectedIdsFresh", "CompletionExact",
 
 
 def _cfg(consts, invs=True, spec="MSpec", sample=1):
-    s = ("SPECIFICATION %s\nCONSTANTS MaxEp = %d MaxInj = %d MaxAcks = %d Tries = %d Interval = 3 Reorder = %d Depth = %d SampleOneIn = %d\n"
-         % (spec, consts["MaxEp"], consts["MaxInj"], consts["MaxAcks"], consts["Tries"], consts["Reorder"], consts["Depth"], sample))
+    s = ("SPECIFICATION %s\nCONSTANTS MaxEp = %d MaxInj = %d MaxAcks = %d Tries = %d Interval = 3 Reorder = %d Depth = %d SampleOneIn = %d W = %d\n"
+         % (spec, consts["MaxEp"], consts["MaxInj"], consts["MaxAcks"], consts["Tries"], consts["Reorder"], consts["Depth"], sample,
+            consts.get("W", 0)))
     if invs:
         s += "".join("INVARIANT %s\n" % i for i in INVS)
     if spec == "SSpec":
@@ -43,12 +44,15 @@ class DropAddon:
         return None
 
 
+_WINDOW = None     # tracker window of the configuration being replayed (None = the code's default 10000)
+
+
 class Impl:
     def __init__(self):
         from . import proxyenv
         self.pe = proxyenv
         self.addon = DropAddon()
-        self.env = proxyenv.ProxyEnv(addons=[self.addon])
+        self.env = proxyenv.ProxyEnv(addons=[self.addon], tracker_window=_WINDOW)
         self.env.protocol.resend_task.cancel()
         self.futs = {}
         self.loop = asyncio.get_event_loop_policy().get_event_loop()
@@ -236,7 +240,8 @@ def _report(chk, label, results):
 
 def _b1_sim(chk: Check, consts, label, num, sample):
     """Sampled deep behaviours (TLC -simulate), each replayed step by step."""
-    global _B
+    global _B, _WINDOW
+    _WINDOW = consts.get("W") or None
     cfgp = os.path.join(chk.scratch, "sim-%s.cfg" % label)
     with open(cfgp, "w") as f:
         f.write(_cfg(consts, spec="SSpec", sample=sample))
@@ -263,7 +268,8 @@ def _b1_sim(chk: Check, consts, label, num, sample):
 
 
 def _b1(chk: Check, consts, label):
-    global _G
+    global _G, _WINDOW
+    _WINDOW = consts.get("W") or None
     recs = common.export_records(chk, "ProxiedCircuit_MBT", _cfg(consts), label)
     # the export run also checked every invariant on every state it generated
     chk.cov["tlc_runs"][-1]["invariants"] = INVS
@@ -291,7 +297,7 @@ def run(chk: Check):
                        "appended/PacketAck acks, forward/drop disposition, proxy injections, clock ticks) replayed through the real "
                        "InterceptingLLUDPProxyProtocol.handle_proxied_packet + ProxiedCircuit with emitted datagrams, future states and "
                        "message flags compared; non-trivial = edges carrying acks, drops, injections or ticks")
-    chk.assumptions += ["tracker window not reached (C04 covers eviction)", "no packet-ID wrap-around",
+    chk.assumptions += ["with a small tracker window (configs evict-*) the environment only sends/acknowledges IDs above the newest aged-out injection (C04's horizon)", "no packet-ID wrap-around",
                         "a dropped standalone PacketAck may lose its Packets blocks (the property only claims piggy-backed acks of a dropped packet)",
                         "the packet ID of the PacketAck that carries a dropped packet's appended acks is the proxy's choice",
                         "virtual clock replaces datetime in hippolyzer.lib.base.message.circuit; resend_unacked is called after every tick"]
@@ -299,8 +305,11 @@ def run(chk: Check):
         _b1(chk, dict(MaxEp=2, MaxInj=2, MaxAcks=2, Tries=10, Reorder=1, Depth=4), "exhaustive-d4")
         _b1_sim(chk, dict(MaxEp=3, MaxInj=3, MaxAcks=2, Tries=10, Reorder=1, Depth=9), "simulate-d9", 150, 12)
         _b1_sim(chk, dict(MaxEp=1, MaxInj=1, MaxAcks=1, Tries=10, Reorder=0, Depth=14), "budget-d14", 300, 3)
+        _b1_sim(chk, dict(MaxEp=3, MaxInj=4, MaxAcks=1, Tries=10, Reorder=1, Depth=10, W=1), "evict-W1-d10", 150, 10)
     else:
         _b1(chk, dict(MaxEp=2, MaxInj=2, MaxAcks=2, Tries=10, Reorder=1, Depth=5), "exhaustive-d5")
         _b1_sim(chk, dict(MaxEp=3, MaxInj=3, MaxAcks=2, Tries=10, Reorder=1, Depth=10), "simulate-d10", 2500, 12)
         _b1_sim(chk, dict(MaxEp=1, MaxInj=1, MaxAcks=1, Tries=10, Reorder=0, Depth=16), "budget-d16", 5000, 3)
+        _b1_sim(chk, dict(MaxEp=3, MaxInj=4, MaxAcks=1, Tries=10, Reorder=1, Depth=11, W=1), "evict-W1-d11", 2500, 10)
+        _b1_sim(chk, dict(MaxEp=3, MaxInj=5, MaxAcks=1, Tries=10, Reorder=1, Depth=12, W=2), "evict-W2-d12", 2500, 10)
     chk.cov["exhaustive"] = True
